@@ -119,7 +119,7 @@ def decObj (s : Shared) (a : Nat) : Shared × List Ev :=
 
 inductive NG where
   | trav
-  | cc0 (n : Nat) | cc1 (n : Nat) | cc2 (n : Nat) | claim (n : Nat)
+  | cc0 (n : Nat) | cc1 (n : Nat) | cc2 (n : Nat) (idle : Bool) | claim (n : Nat)
   | allocLoad
   | allocCas (me : Option Nat) (h : Option Nat)
   | done (n : Nat)
@@ -130,21 +130,31 @@ def NG.afterNode (s : Shared) (n : Nat) : NG :=
   | some m => .cc0 m
   | none => .allocLoad
 
+/-- the assertion at the end of `check_cooldown` -/
+def chkAssert : Fault := .debugAssert "check_cooldown: somebody took a node while it was being checked"
+
 def stepNG (s : Shared) (spur : Bool) : NG → Shared × NG × List Ev
   | .trav =>
     (s, (match s.head with | some n => .cc0 n | none => .allocLoad), [.load .traverse0 .head (.node s.head)])
   | .cc0 n =>
-    let v := (s.nodes n).inUse
-    (s, (if v = nodeCooldown then .cc1 n else .claim n), [.load .cc0 (.inUse n) (.nat v)])
-  | .cc1 n =>
-    let w := (s.nodes n).writers
-    (s, (if w = 0 then .cc2 n else .claim n), [.load .cc1 (.writers n) (.nat w)])
-  | .cc2 n =>
+    -- `check_cooldown`: take the node out of the cooldown state for the duration of the check
     let v := (s.nodes n).inUse
     if v = nodeCooldown then
-      (s.setNode n fun nd => { nd with inUse := nodeUnused }, .claim n,
-        [.cas .cc2 (.inUse n) (.nat nodeCooldown) (.nat nodeUnused) (.nat v) true])
-    else (s, .claim n, [.cas .cc2 (.inUse n) (.nat nodeCooldown) (.nat nodeUnused) (.nat v) false])
+      (s.setNode n fun nd => { nd with inUse := nodeChecking }, .cc1 n,
+        [.cas .cc0 (.inUse n) (.nat nodeCooldown) (.nat nodeChecking) (.nat v) true])
+    else (s, .claim n, [.cas .cc0 (.inUse n) (.nat nodeCooldown) (.nat nodeChecking) (.nat v) false])
+  | .cc1 n =>
+    let w := (s.nodes n).writers
+    (s, .cc2 n (w = 0), [.load .cc1 (.writers n) (.nat w)])
+  | .cc2 n idle =>
+    -- released if no writer was inside, back to cooldown otherwise
+    let v := (s.nodes n).inUse
+    let nv := if idle then nodeUnused else nodeCooldown
+    if v = nodeChecking then
+      (s.setNode n fun nd => { nd with inUse := nv }, .claim n,
+        [.cas .cc2 (.inUse n) (.nat nodeChecking) (.nat nv) (.nat v) true])
+    else (s.setFault chkAssert, .claim n,
+        [.cas .cc2 (.inUse n) (.nat nodeChecking) (.nat nv) (.nat v) false])
   | .claim n =>
     let v := (s.nodes n).inUse
     if v = nodeUnused then
